@@ -84,6 +84,54 @@ func checkQuantUse(p *load.Program, q *types.Var, fd *ast.FuncDecl) error {
 	return checkQuantUseDef(p, q, fd, false)
 }
 
+// ifInitFlag recognises `if x = E; C { … }` / `if x := E; C { … }` where E is a boolean expression that mentions the quantified
+// variable and x is a boolean variable: it returns x and E. The tracer evaluates C with x bound to the value of E.
+func ifInitFlag(p *load.Program, q *types.Var, s *ast.IfStmt) (types.Object, ast.Expr) {
+	a, ok := s.Init.(*ast.AssignStmt)
+	if !ok || len(a.Lhs) != 1 || len(a.Rhs) != 1 || (a.Tok != token.ASSIGN && a.Tok != token.DEFINE) {
+		return nil, nil
+	}
+	id, ok := unparen(a.Lhs[0]).(*ast.Ident)
+	if !ok || !mentions(p, q, a.Rhs[0]) || !boolTyped(p, a.Rhs[0]) {
+		return nil, nil
+	}
+	obj := p.Info.Defs[id]
+	if obj == nil {
+		obj = p.Info.Uses[id]
+	}
+	if obj == nil {
+		return nil, nil
+	}
+	return obj, a.Rhs[0]
+}
+
+// flagReadOnlyIn: the variable x is read nowhere in body except inside cond (assignments to it do not count). A flag that is read
+// elsewhere would make a later branch on it opaque, and an opaque branch over-approximates what an id reaches.
+func flagReadOnlyIn(p *load.Program, x types.Object, body *ast.BlockStmt, cond ast.Expr) bool {
+	ok := true
+	var lhs = map[*ast.Ident]bool{}
+	ast.Inspect(body, func(n ast.Node) bool {
+		if a, isA := n.(*ast.AssignStmt); isA {
+			for _, l := range a.Lhs {
+				if id, isID := unparen(l).(*ast.Ident); isID {
+					lhs[id] = true
+				}
+			}
+		}
+		return true
+	})
+	ast.Inspect(body, func(n ast.Node) bool {
+		if n == ast.Node(cond) {
+			return false
+		}
+		if id, isID := n.(*ast.Ident); isID && !lhs[id] && (p.Info.Uses[id] == x || p.Info.Defs[id] == x) && p.Info.Defs[id] == nil {
+			ok = false
+		}
+		return true
+	})
+	return ok
+}
+
 // checkQuantUseDef is checkQuantUse; with allowDef the function may also DEFINE the quantified variable: one assignment, a statement
 // of the function body itself (not nested in any branch), with no mention of the variable in the statements before it. Tracing with
 // q = id then describes exactly the executions in which that assignment stored id.
@@ -91,6 +139,16 @@ func checkQuantUseDef(p *load.Program, q *types.Var, fd *ast.FuncDecl, allowDef 
 	var err error
 	base := ""
 	var def *ast.AssignStmt
+	// `if x = E(q); C(x)`: the flag is evaluated by the tracer, provided it is read nowhere else
+	flagInit := map[*ast.AssignStmt]bool{}
+	ast.Inspect(fd.Body, func(n ast.Node) bool {
+		if is, ok := n.(*ast.IfStmt); ok {
+			if x, _ := ifInitFlag(p, q, is); x != nil && flagReadOnlyIn(p, x, fd.Body, is.Cond) {
+				flagInit[is.Init.(*ast.AssignStmt)] = true
+			}
+		}
+		return true
+	})
 	if allowDef {
 		ndef := 0
 		ast.Inspect(fd.Body, func(n ast.Node) bool {
@@ -170,7 +228,7 @@ func checkQuantUseDef(p *load.Program, q *types.Var, fd *ast.FuncDecl, allowDef 
 				}
 			}
 			for _, rhs := range x.Rhs {
-				if mentions(p, q, rhs) {
+				if mentions(p, q, rhs) && !flagInit[x] {
 					for _, l := range x.Lhs {
 						if id, ok := unparen(l).(*ast.Ident); ok && id.Name != "_" {
 							if c, isCall := unparen(rhs).(*ast.CallExpr); isCall {
@@ -235,6 +293,18 @@ func (t *tracer) reach(n ast.Node) {
 
 func (t *tracer) has(n ast.Node) bool { return mentions(t.p, t.q, n) }
 
+// mentionsObj: some identifier below n refers to x.
+func mentionsObj(p *load.Program, x types.Object, n ast.Node) bool {
+	found := false
+	ast.Inspect(n, func(m ast.Node) bool {
+		if id, ok := m.(*ast.Ident); ok && p.Info.Uses[id] == x {
+			found = true
+		}
+		return !found
+	})
+	return found
+}
+
 func (t *tracer) evalBool(e ast.Expr) bool {
 	b, err := t.m.EvalBool(e, Env{t.q: t.val})
 	if err != nil {
@@ -282,6 +352,21 @@ func (t *tracer) stmt(s ast.Stmt) tflow {
 	case *ast.IfStmt:
 		t.reach(s.Init)
 		t.reach(s.Cond)
+		if x, e := ifInitFlag(t.p, t.q, s); x != nil && !t.has(s.Cond) && mentionsObj(t.p, x, s.Cond) {
+			// the condition reads a flag computed from the quantified variable in the init statement
+			v, err := t.m.Eval(e, Env{t.q: t.val})
+			if err != nil {
+				panic(err)
+			}
+			b, err := t.m.EvalBool(s.Cond, Env{t.q: t.val, x: v})
+			if err != nil {
+				panic(err)
+			}
+			if b {
+				return t.block(s.Body.List)
+			}
+			return t.stmt(s.Else)
+		}
 		if t.has(s.Cond) {
 			if t.evalBool(s.Cond) {
 				return t.block(s.Body.List)
